@@ -97,3 +97,5 @@ def run(rep, prop, kinds, tier, seed, replay_prog=None):
                           "Lean acceptors rwspec / semlog / ringlog; a run without progress for 3 s is a stuck waiter")
     for kid, (k, p, v) in seen.items():
         rep.known_finding("%s (e.g. program `%s`: %s)" % (k["description"], p[0], v[:140]))
+    if getattr(rep, "pending_guard", None) and not rep.violations:
+        rep.violation("unverified", rep.pending_guard, no_input=True)
